@@ -102,7 +102,7 @@ class World:
                 raise core.Unsupported(f"Date.start_of({unit!r}) in the scenario world")
             return self.date(d)
         return Obj(_methods=self.meths if self.cls == "Date" else {}, _props=self.props if self.cls == "Date" else set(), _ctor=self.ctor,
-                   _natives={}, _date=d, _mins=None, _eqkey=(d.toordinal(), 0),
+                   _natives={}, _date=d, _mins=None, _eqkey=(d.toordinal(), 0), _types=(_dt.date,),
                    year=d.year, month=d.month, day=d.day, day_of_week=d.weekday(), quarter=(d.month - 1) // 3 + 1,
                    days_in_month=_calendar.monthrange(d.year, d.month)[1],
                    set=set_, replace=set_, on=set_, add=add, subtract=subtract, start_of=start_of, format=lambda f, *a, **k: _format(d, f),
@@ -161,7 +161,7 @@ class World:
             raise core.Unsupported("utcoffset() away from a repeated hour in the scenario world")
 
         me = Obj(_methods=self.meths if self.cls == "DateTime" else {}, _props=self.props if self.cls == "DateTime" else set(), _ctor=self.ctor,
-                 _natives={}, _date=d, _mins=mins, _eqkey=(d.toordinal(), mins),
+                 _natives={}, _date=d, _mins=mins, _eqkey=(d.toordinal(), mins), _types=(_dt.datetime,),
                  year=d.year, month=d.month, day=d.day, hour=mins // 60, minute=mins % 60, second=0, microsecond=0, fold=fold,
                  day_of_week=d.weekday(), quarter=(d.month - 1) // 3 + 1, days_in_month=_calendar.monthrange(d.year, d.month)[1],
                  tz=self.tz, tzinfo=self.tz, timezone=self.tz, timezone_name="Scenario/Zone",
